@@ -14,6 +14,7 @@ import (
 	"go/types"
 	"os"
 	"path/filepath"
+	"regexp"
 	"slices"
 	"sort"
 	"strconv"
@@ -770,8 +771,12 @@ func runtimeInstances(c *Check, r *Repo) []*inst {
 			}
 			tail := syntheticTail(cfg)
 			e1 := false
-			if t2, ok := emittedTail(r, ti, v); ok {
+			if t2, imps, ok := emittedTail(r, ti, v); ok {
 				e1 = true
+				if len(imps) > 0 {
+					// the import list the evaluated generator hands to the template for such a grammar
+					cfg.Imports = imps
+				}
 				// the rule table as the emitter itself prints it for a grammar using these features
 				tail = applyVocab(t2, ti.vocabFor(cfg))
 				cfg.RuleNames = []string{"S", "A"}
@@ -788,6 +793,23 @@ func runtimeInstances(c *Check, r *Repo) []*inst {
 				}
 			}
 			in := buildInst(r, cfg.name(), head+tail)
+			if !e1 {
+				// a valuation the generator cannot produce has no import list of its own: the one
+				// used here is a guess, corrected like goimports would (whether the generator imports
+				// exactly what is needed is decided on the producible configurations, C08 R-frag-typecheck)
+				for round := 0; round < 4 && len(in.Errs) > 0; round++ {
+					imps, changed := adjustImports(r, cfg.Imports, in.Errs)
+					if !changed {
+						break
+					}
+					cfg.Imports = imps
+					head, lm, err = ti.instantiate(cfg)
+					if err != nil {
+						break
+					}
+					in = buildInst(r, cfg.name(), head+tail)
+				}
+			}
 			in.E1Tail = e1
 			in.Cfg = cfg
 			in.LineMap = lm
@@ -855,15 +877,18 @@ func runtimeInstances(c *Check, r *Repo) []*inst {
 // prints, so that the runtime rules see real rule functions instead of the
 // hand-written stand-in. Valuations the generator cannot produce (HasString:
 // string nodes are never constructed) fall back to the stand-in.
-func emittedTail(r *Repo, ti *tmplInfo, v map[string]bool) (string, bool) {
-	if v["HasString"] {
-		return "", false
-	}
+func emittedTail(r *Repo, ti *tmplInfo, v map[string]bool) (string, []string, bool) {
+	return emittedTailN(r, ti, v, 1)
+}
+
+// emittedTailN: the same with nActions actions (Action0 … ActionN-1) when the valuation has actions.
+func emittedTailN(r *Repo, ti *tmplInfo, v map[string]bool, nActions int) (string, []string, bool) {
 	rg := findRegion(r)
 	if len(rg.problems) > 0 {
-		return "", false
+		return "", nil, false
 	}
 	var text string
+	var imports []string
 	ok := false
 	func() {
 		defer func() { recover() }()
@@ -873,6 +898,10 @@ func emittedTail(r *Repo, ti *tmplInfo, v map[string]bool) (string, bool) {
 		if v["HasDot"] {
 			parts = append(parts, m.query(m.dot()))
 		}
+		if v["HasString"] {
+			// the front end never builds string nodes, the builder API and the emitter know them
+			parts = append(parts, m.query(m.str("xy")))
+		}
 		if v["HasPush"] {
 			parts = append(parts, m.push(m.char("b")))
 		}
@@ -881,7 +910,9 @@ func emittedTail(r *Repo, ti *tmplInfo, v map[string]bool) (string, bool) {
 			if v["HasPush"] {
 				code = "_ = text"
 			}
-			parts = append(parts, m.action(code))
+			for k := 0; k < nActions; k++ {
+				parts = append(parts, m.action(code))
+			}
 		}
 		parts = append(parts, m.name("A"))
 		m.addRule("S", m.seq(parts...), 1)
@@ -900,7 +931,49 @@ func emittedTail(r *Repo, ti *tmplInfo, v map[string]bool) (string, bool) {
 				return
 			}
 		}
-		text, ok = em.Text, true
+		text, imports, ok = em.Text, got.Imports, true
 	}()
-	return text, ok
+	return text, imports, ok
+}
+
+var reUndefinedPkg = regexp.MustCompile(`undefined: (\w+)$`)
+var reUnusedImport = regexp.MustCompile(`"([^"]+)" imported and not used`)
+
+// adjustImports repairs an import list from type errors that are only about
+// imports: a missing standard package is added, an unused one dropped. Any
+// other error leaves the list alone.
+func adjustImports(r *Repo, imps []string, errs []string) ([]string, bool) {
+	out := append([]string{}, imps...)
+	changed := false
+	for _, e := range errs {
+		if m := reUnusedImport.FindStringSubmatch(e); m != nil {
+			for i, p := range out {
+				if p == m[1] {
+					out = append(out[:i], out[i+1:]...)
+					changed = true
+					break
+				}
+			}
+			continue
+		}
+		if m := reUndefinedPkg.FindStringSubmatch(e); m != nil {
+			var cands []string
+			for path := range r.Std {
+				if path == m[1] || strings.HasSuffix(path, "/"+m[1]) {
+					if !strings.Contains(path, "internal") && !strings.Contains(path, "vendor") {
+						cands = append(cands, path)
+					}
+				}
+			}
+			sort.Strings(cands)
+			if len(cands) > 0 && !slices.Contains(out, cands[0]) {
+				out = append(out, cands[0])
+				changed = true
+			}
+			continue
+		}
+		return imps, false
+	}
+	sort.Strings(out)
+	return out, changed
 }
